@@ -307,6 +307,45 @@ def record_type_restored(chk):
             raise AnalysisBroken('%s: only %d application_data := 1 sites' % (key, n))
 
 
+def input_discarded_only_when_closing(chk):
+    """Handshake messages and alerts are consumed by their announced length, across record boundaries; the one native that throws away
+    whatever input is pending (discard-input: hlen_in := 0) is for the closing sequence, where everything but the peer's close_notify
+    is ignored.  Who-may-call rule over the bytecode of both handshake engines: every word that invokes discard-input is reachable from the entry word only
+    through a word that never returns (the close loop, which ends in fail).  Used anywhere else - e.g. to skip the ClientHello of a
+    declined renegotiation - it drops only the fragment at hand: the rest of the message, in the next record, is then taken for a
+    new message and the connection dies instead of carrying on."""
+    from .. import t0, t0rules
+    R = 'discard-input-only-when-closing'
+    n = 0
+    for key in ('hs_client', 'hs_server'):
+        P = t0.Program(key)
+        callers = P.words_calling_native('discard-input')
+        if not callers:
+            raise AnalysisBroken('%s: native discard-input has no caller' % key)
+        ret = t0rules.returning_words(P)
+        entry = P.entries[0][1]
+        closing = set(w for w in P.words if ret.get(w, True) is False and w != entry)
+        # words reachable from the entry without going through a never-returning word (the closing sequence)
+        reach, st = {entry}, [entry]
+        while st:
+            x = st.pop()
+            for i in P.words[x].ins.values():
+                if i.kind == 'call' and i.arg in P.words and i.arg not in reach and i.arg not in closing:
+                    reach.add(i.arg)
+                    st.append(i.arg)
+        if not closing:
+            raise AnalysisBroken('%s: no never-returning word besides the entry (closing sequence not found)' % key)
+        for w in callers:
+            n += 1
+            inst = '%s: word %d (uses discard-input) is reachable only through the closing sequence (never-returning words %s)' % (key, w, sorted(closing))
+            if w in reach:
+                chk.violation(R, inst, 'src/ssl/ssl_%s.c' % key, 'the word is reachable from the handshake / application-data flow without entering the closing '
+                              'sequence: pending input is thrown away there although the message it belongs to may continue in the next record', key='%s %s %d' % (R, key, w))
+            else:
+                chk.ok(R, inst, 'src/ssl/ssl_%s.c' % key)
+    chk.floor('discard-input users', n, 2)
+
+
 def no_renegotiation_option(chk):
     """BR_OPT_NO_RENEGOTIATION: "when disabled, renegotiation is declined with a no_renegotiation warning".  In both interpreters the
     post-handshake loop - the word that sends warning 100 - must consult that option: the bytecode tests engine flags by bit *index*
@@ -660,6 +699,7 @@ def run(tier):
     close_notify_remembered(chk)
     record_type_restored(chk)
     no_renegotiation_option(chk)
+    input_discarded_only_when_closing(chk)
     fail_call_sites(chk)
     io_rules(chk)
     # the closure / renegotiation processor is resumed when a record has been sent (engine I/O transition table, shared with C01 / C06)
